@@ -91,8 +91,8 @@ SubstE(e, env) ==
 \* the element gates of definition d with the parameters and qubits of invocation g substituted
 \* (only evaluated when the counts match)
 Instantiate(d, g) ==
-  LET penv == Env(d.params, g.params)
-      qenv == Env(d.qubits, g.qubits)
+  LET penv == TLCEval(Env(d.params, g.params))       \* TLCEval: evaluate once, not once per use
+      qenv == TLCEval(Env(d.qubits, g.qubits))
   IN [n \in DOMAIN d.gates |->
         LET e == d.gates[n] IN
         [e EXCEPT !.params = [m \in DOMAIN e.params |-> SubstE(e.params[m], penv)],
@@ -133,12 +133,19 @@ Refs(defs) == {<<a, b>> \in SeqNames(defs) \X SeqNames(defs) :
                   \E n \in DOMAIN Def(defs, a).gates : Def(defs, a).gates[n].name = b}
 ClosedUnder(E, X) == \A e \in E : e[1] \in X => e[2] \in X
 ReachFrom(defs, S) ==
-  LET E == Refs(defs)
-      nodes == SeqNames(defs)
-      closedSupersets == {X \in SUBSET nodes : S \subseteq X /\ ClosedUnder(E, X)}
+  LET E == TLCEval(Refs(defs))
+      nodes == TLCEval(SeqNames(defs))
+      closedSupersets == TLCEval({X \in SUBSET nodes : S \subseteq X /\ ClosedUnder(E, X)})
   IN {n \in nodes : \A X \in closedSupersets : n \in X}
+\* The same set as the limit of the monotone iteration X |-> X \cup successors(X) (Kleene), which is cheap
+\* enough to be evaluated on thousands of recorded results; ReachAgree (checked by TLC on every table of the
+\* exhaustive families) states that the two definitions coincide.
+RECURSIVE ReachIter(_, _, _)
+ReachIter(E, X, k) == IF k = 0 THEN X ELSE ReachIter(E, X \cup {e[2] : e \in {f \in E : f[1] \in X}}, k - 1)
+ReachLfp(defs, S) == ReachIter(TLCEval(Refs(defs)), S, Cardinality(SeqNames(defs)))
 Unselected(defs, filter) == {n \in SeqNames(defs) : n \notin filter}
 KeepD(defs, filter) == (DefNames(defs) \ SeqNames(defs)) \cup ReachFrom(defs, Unselected(defs, filter))
+KeepDFast(defs, filter) == (DefNames(defs) \ SeqNames(defs)) \cup ReachLfp(defs, Unselected(defs, filter))
 
 \* names of defs in table order restricted to a set (the kept gate_definitions keys)
 InOrder(defs, S) == LET pick(d) == d.name \in S IN
@@ -252,10 +259,12 @@ Start(ds, f, b) ==
 \* one iteration of `for (_, (i, _)) in gate_sequence_definitions.iter().filter(|(name, _)| !filter(name))`
 KeepSource ==
   /\ phase = "keep" /\ ksrc # <<>>
-  /\ LET i == Head(ksrc) IN
+  /\ LET i == Head(ksrc)
+         E == TLCEval(Refs(defs))
+         order == TLCEval(SeqOrder(defs)) IN
      kreach' = kreach \cup (IF Dev("KeepDirectOnly")
-                            THEN {i} \cup {j \in SeqNames(defs) : <<i, j>> \in Refs(defs)}
-                            ELSE {j \in SeqNames(defs) : DfsFinds(SeqOrder(defs), Refs(defs), <<i>>, {}, j)})
+                            THEN {i} \cup {j \in SeqNames(defs) : <<i, j>> \in E}
+                            ELSE {j \in SeqNames(defs) : DfsFinds(order, E, <<i>>, {}, j)})
   /\ ksrc' = Tail(ksrc)
   /\ UNCHANGED <<defs, filter, body, phase, kept, frames, estack, result>>
 
@@ -341,6 +350,7 @@ KeepOrder    == Done => kept.some = InOrder(defs, KeepD(defs, filter))
 MapWellFormed == (Done /\ IsOk(result)) =>
    /\ WFMap(defs, filter, body, result.ok.out, result.ok.map, {})
    /\ SourcesExact(result.ok.map, result.ok.out)
+ReachAgree == Done => \A S \in SUBSET SeqNames(defs) : ReachFrom(defs, S) = ReachLfp(defs, S)
 MapNames == (Done /\ IsOk(result)) => MapNamesOk(defs, body, result.ok.map)
 \* no selected invocation survives, at any depth
 FullyExpanded == (Done /\ IsOk(result)) =>
